@@ -171,6 +171,14 @@ def run_history(steps, sc):
             want_acks = (1 if k in ("busy", "interrupt") else 0) + (1 if nudged else 0)
             detail = {"step": i, "label": step["label"], "state_before": state,
                       "responses": [describe(g) for g in workers], "acks": acks}
+            if nudged and acks == want_acks - 1 and len(workers) == want_workers:
+                # The wall-clock nudge can race with a response that was merely slow: the reader thread then acks the
+                # interrupt AFTER the sentinel's answer and leaves a stale interrupt flag behind. That is an artefact of
+                # the harness, not of the session: the case is abandoned as inconclusive, never judged.
+                part, _st = s.read_until(lambda v: session.resp_kind(v) == "interrupted" and
+                                         session.resp_body(v).get("stack_frame_name") is None, timeout=5.0)
+                return {"status": "inconclusive", "detail": dict(detail, note="nudge raced with a slow response",
+                                                                 trailing=[describe(g) for g in part][-3:]), "keys": keys}
             if len(workers) != want_workers:
                 return {"status": "violated", "sig": "response-count:%s:%d" % (step["label"], len(workers)), "detail": detail, "keys": keys, "failed_at": i}
             if acks != want_acks:
